@@ -540,6 +540,8 @@ def run_histories(ctx, pp):
     for w in HIST_WRAPPERS:
         for h in HIST_HISTORIES:
             for text in HIST_TEXTS:
+                if w == "opt-group" and text.count("=") > 2:
+                    continue          # that wrapper reads at most two settings
                 n += 1
                 try:
                     p = common.with_alarm(5, hist_case, pp, w, h, text)
